@@ -341,6 +341,13 @@ let () =
                        if Hashtbl.mem dropped_ever s || Hashtbl.mem returned_ever s then dd := false;
                        Hashtbl.replace dropped_ever s ()) post.dropped;
            chk "drop_once" !dd;
+           (* when the walker reports an incoherent structure after an uninjected step, the entry list it could read is not
+              meaningful: only the structural verdict is given for this step, the model comparison is not attempted *)
+           let post_struct_ok = (match post.graph with Some g -> ri_check g | None -> true) in
+           if inject = None && not post_struct_ok then bump dist "steps_with_incoherent_structure_after";
+           (* components computed from the walked entry list are judged only when the walk is meaningful; results, scalars,
+              drops and callback counts are judged regardless *)
+           let chkw name ok = if post_struct_ok || inject <> None then chk name ok in
            (match inject with
             | Some (kname, nth) ->
               (* ---- an injected panic: compare with the model's panic points (C16) ---- *)
@@ -435,10 +442,10 @@ let () =
                  chk "res_class" (cls mres = cls post.res);
                  let kl (c : cache) = List.map (fun (en : entry) -> s_of_n en.ek.kid) c.ents in
                  let km = kl s' and ki = kl post.st in
-                 chk "keyset" (List.sort compare km = List.sort compare ki);
-                 chk "order" (List.filter (fun x -> List.mem x ki) km = List.filter (fun x -> List.mem x km) ki);
-                 chk "ents" (noes_string s' = noes_string post.st);
-                 chk "sizes" (sizes_string s' = sizes_string post.st);
+                 chkw "keyset" (List.sort compare km = List.sort compare ki);
+                 chkw "order" (List.filter (fun x -> List.mem x ki) km = List.filter (fun x -> List.mem x km) ki);
+                 chkw "ents" (noes_string s' = noes_string post.st);
+                 chkw "sizes" (sizes_string s' = sizes_string post.st);
                  chk "cur" (Z.equal (z_of_n s'.cur) (z_of_n post.st.cur));
                  chk "max" (Z.equal (z_of_n s'.maxs) (z_of_n post.st.maxs));
                  (* a rejected insertion must leave every observable bit as it was, pointer structure included *)
@@ -499,10 +506,10 @@ let () =
                         | (Reserve _ | TryReserve _ | ShrinkTo _ | ShrinkToFit), _ -> if rebuilt_obs then survivors_moved g0 else Some g0
                         | _, _ -> Some g0) in
                     (match expected with
-                     | None -> chk "bsim" false; Buffer.add_string detail "  layer B: the pointer-level operation FAULTS on the observed graph (access to a freed / unallocated node)\n"
+                     | None -> chkw "bsim" false; Buffer.add_string detail "  layer B: the pointer-level operation FAULTS on the observed graph (access to a freed / unallocated node)\n"
                      | Some g' ->
                        let want = links_string (b_links g') and got = observed_links post in
-                       chk "bsim" (want = got);
+                       chkw "bsim" (want = got);
                        if want <> got then Buffer.add_string detail (Printf.sprintf "  layer B links (addr:prev:next:size, seal first, MRU first):\n    expected %s\n    observed %s\n" want got)));
                  (match p with
                   | Mutate _ -> let cl = (try List.assoc "cl" post.calls with Not_found -> "?") in
@@ -520,19 +527,19 @@ let () =
               let survivors = List.filter_map (fun (kt, a) -> match List.assoc_opt kt post.addr_of_ktok with Some a' -> Some (a = a') | None -> None) pre.addr_of_ktok in
               let moved = List.exists not survivors and stayed = List.exists (fun x -> x) survivors in
               let may_rebuild = (match p with Reserve _ | TryReserve _ | ShrinkTo _ | ShrinkToFit | Insert _ | TryInsert _ -> true | _ -> false) in
-              chk "addr_stable" (not moved || (may_rebuild && not stayed));
+              chkw "addr_stable" (not moved || (may_rebuild && not stayed));
               (* monitors on the implementation's observations *)
-              if not tainted.(slot) then begin chk "mon_c01" (c01_mon !e post.st); chk "mon_c02" (c02_mon !e post.st) end;
+              if not tainted.(slot) then begin chkw "mon_c01" (c01_mon !e post.st); chkw "mon_c02" (c02_mon !e post.st) end;
               (* the counter never exceeds the limit when an operation returns — also in a cache that went through a caught panic *)
               if post.res <> "panic" then chk "mon_c01_cur" (Z.leq (z_of_n post.st.cur) (z_of_n post.st.maxs));
               (* at every point the counter is the sum of the recorded sizes — also in a cache that went through a caught panic *)
-              chk "mon_c02_sum" (Z.equal (z_of_n post.st.cur) (List.fold_left (fun a (en : entry) -> Z.add a (z_of_n en.es)) Z.zero post.st.ents));
-              chk "mon_c04" (c04_nodup_mon post.st);
+              chkw "mon_c02_sum" (Z.equal (z_of_n post.st.cur) (List.fold_left (fun a (en : entry) -> Z.add a (z_of_n en.es)) Z.zero post.st.ents));
+              chkw "mon_c04" (c04_nodup_mon post.st);
               (match parse_out post.res with
-               | Some o -> if post.res <> "panic" then chk "mon_c06" (c06_mon pre.st p o post.dropped post.st);
+               | Some o -> if post.res <> "panic" then chkw "mon_c06" (c06_mon pre.st p o post.dropped post.st);
                  List.iter (fun t -> Hashtbl.replace returned_ever (s_of_n t) ()) (returned p o)
                | None -> ());
-              chk "mon_c20" (c20_mon pre.st p post.hashes moved post.st);
+              chkw "mon_c20" (c20_mon pre.st p post.hashes moved post.st);
               (match parse_out post.res with Some o -> chk "mon_c13" (c13_mon pre.st p o post.st) | None -> ());
               (* growth bound over the history of this cache: capacity < max(4 x peak len, 16) or <= what was explicitly requested *)
               peaks.(slot) <- max peaks.(slot) (max (List.length pre.st.ents) (List.length post.st.ents));
@@ -541,7 +548,7 @@ let () =
                | _ -> ());
               let req_cap = (match t_alloc !e (n_of_z reqs.(slot)) true with AOk t -> z_of_n (capacity t) | _ -> Z.zero) in
               let bound = Z.max (Z.of_int (4 * peaks.(slot))) (Z.of_int 16) in
-              chk "growth" (Z.lt (z_of_n post.cap) bound || Z.leq (z_of_n post.cap) req_cap);
+              chkw "growth" (Z.lt (z_of_n post.cap) bound || Z.leq (z_of_n post.cap) req_cap);
               (match post.graph with Some g -> chk "mon_c07" (ri_check g) | None -> ())
             | XClone dst ->
               peaks.(dst) <- List.length pre.st.ents; reqs.(dst) <- z_of_n pre.cap;
